@@ -21,7 +21,9 @@ except ImportError:
 
 from . import fileio
 from .exceptions import ContextIsLockedException, FileAlreadyExistsException
-from .samplers import BernoulliSampler, BernoulliSamplerPerKey, PoissonSampler, PoissonSamplerPerKey
+from .samplers import (
+    BernoulliSampler, BernoulliSamplerPerKey, PoissonSampler, PoissonSamplerPerKey, TaskRandom
+)
 from .stat_counter import StatCounter
 from .utils import portable_hash
 
@@ -1175,11 +1177,11 @@ class RDD:
         boundaries = [0]
         for w in weights:
             boundaries.append(boundaries[-1] + w / sum_weights)
-        random.seed(seed)
+        rng = random.Random(seed)
 
         lists = [[] for _ in weights]
         for e in self.toLocalIterator():
-            r = random.random()
+            r = rng.random()
             for i, (lb, ub) in enumerate(zip(boundaries[:-1], boundaries[1:])):
                 if lb <= r < ub:
                     lists[i].append(e)
@@ -2127,13 +2129,11 @@ class PartitionwiseSampledRDD(RDD):
         self.seed = seed
 
     def compute(self, split, task_context):
-        random.seed(self.seed + split.index)
-        if numpy is not None:
-            numpy.random.seed(self.seed + split.index)
+        rng = TaskRandom(self.seed + split.index)
         return (
             x
             for x in self.prev.compute(split, task_context._create_child())
-            for _ in range(self.sampler(x))
+            for _ in range(self.sampler(x, rng))
         )
 
     def partitions(self):
